@@ -1,1 +1,11 @@
-//! Shared helpers for the vindex check parts.
+//! vindex — model checking of the two index crates (`anda_db_btree`,
+//! `anda_db_tfs`) against boring reference models.
+//!
+//! * `engine`  — generic HIST (explicit-state search over operation
+//!   histories) and CRASH (every prefix / cut of every flush journal) drivers;
+//! * `bt`      — C10: `BTreeIndex` vs `BTreeMap<Key, BTreeSet<Pk>>`;
+//! * `tfs`     — C11: `BM25Index` vs a naive inverted index.
+
+pub mod bt;
+pub mod engine;
+pub mod tfs;
